@@ -467,6 +467,54 @@ func runHookTimeoutCase(a args, idx int) {
 	out.Nontrivial("C06", fmt.Sprint("hook-timeout", idx))
 }
 
+// runChainTimeoutCase: a task with a timeout whose commands each finish well inside it while the whole chain
+// (variations x commands) takes longer than one timeout: nothing failed, so every command and `after` run.
+func runChainTimeoutCase(a args, idx int) {
+	trace := filepath.Join(a.Work, fmt.Sprintf("ctrace.%d", idx))
+	tok := func(s string) string { return fmt.Sprintf("sleep 0.6; printf '%s\\n' >> '%s'", s, trace) }
+	nvar := 1 + idx%2
+	var want []string
+	once := func() ([]string, error) {
+		os.Remove(trace)
+		t := task.NewTask()
+		t.Name = fmt.Sprintf("chaintimeout%d", idx)
+		to := 2 * time.Second
+		t.Timeout = &to
+		t.Commands = []string{tok("c1"), tok("c2")}
+		if nvar == 1 {
+			t.Commands = append(t.Commands, tok("c3"), tok("c4"))
+		} else {
+			t.Variations = []map[string]string{{"V": "a"}, {"V": "b"}}
+		}
+		t.After = []string{fmt.Sprintf("printf 'after\\n' >> '%s'", trace)}
+		want = nil
+		for v := 0; v < nvar; v++ {
+			for i := range t.Commands {
+				want = append(want, fmt.Sprint("c", i+1))
+			}
+		}
+		want = append(want, "after")
+		r := newQuietRunner()
+		err := r.Run(t)
+		lockedFinish(r.Finish)
+		return strings.Fields(h.ReadFile(trace)), err
+	}
+	defer os.Remove(trace)
+	out.Begin(fmt.Sprintf("chain-timeout#%d variations=%d", idx, nvar))
+	got, err := once()
+	out.Count("cases", 1)
+	if strings.Join(got, " ") != strings.Join(want, " ") || err != nil {
+		// time-bound: seen again, or not attributed
+		got2, err2 := once()
+		if strings.Join(got2, " ") == strings.Join(want, " ") && err2 == nil {
+			out.Inconclusive("C06", fmt.Sprintf("chain-timeout#%d: trace %v (error %v) once, as required when repeated", idx, got, err))
+		} else {
+			out.Viol("C06", "commands-missing/chain-longer-than-one-timeout", fmt.Sprintf("trace %v, error %v; every command takes 0.6 s of a 2 s timeout and none fails: the statement requires %v and no error", got2, err2, want), map[string]interface{}{"trace": got2, "want": want})
+		}
+	}
+	out.Nontrivial("C06", fmt.Sprint("chain-timeout", idx))
+}
+
 func modeTask(a args) {
 	var cases []taskCase
 	rnd := h.NewRand(a.Seed, "task")
@@ -636,6 +684,13 @@ func modeTask(a args) {
 		for i := 0; i < a.n(4, 24); i++ {
 			if a.mine(i) {
 				runHookTimeoutCase(a, 3000000+i)
+			}
+		}
+		if a.Prop == "C06" {
+			for i := 0; i < a.n(4, 16); i++ {
+				if a.mine(i) {
+					runChainTimeoutCase(a, 4000000+i)
+				}
 			}
 		}
 	}
